@@ -19,7 +19,7 @@ func init() {
 		Explanation: "Decided: (R1) both subscription tables (and the inner maps reached through them) are read and written only with the stream's mutex held, Publish iterates a private snapshot; " +
 			"(R2) every path that inserts into / deletes from one index performs the matching update of the other index in the same call; (R3) Publish looks up the event's own reflect.Type, and tells every element of the snapshot exactly once, as a user message carrying the published value; " +
 			"(R5) the termination path unsubscribes the actor from everything, the restart path does not; (R6) in the cleanup step UnsubscribeAll dominates the release of the actor's path and every termination notice, so nobody who has observed the termination can still publish to the dead actor, and a successor under the same name cannot lose its subscriptions to the old incarnation's late UnsubscribeAll. " +
-			"(Idempotence of a repeated Subscribe follows from map assignment semantics given R2 and needs no rule: a rule demanding the existence check would fire on a behaviour-preserving edit.) NOT decided: delivery order across publishers, 'not delivered after Unsubscribe returned' when a publish races the unsubscribe.",
+			"(Idempotence of a repeated Subscribe follows from map assignment semantics given R2 and needs no rule: a rule demanding the existence check would fire on a behaviour-preserving edit.) (R7) inside the module UnsubscribeAll is called only by a kill-chain step with the dying actor's own context or with the context a behaviour was handed: the tables are keyed by path, so any other caller drops the subscriptions of whoever lives at that path. NOT decided: delivery order across publishers, 'not delivered after Unsubscribe returned' when a publish races the unsubscribe.",
 		Assumptions: []string{"sync.RWMutex semantics", "maps.Clone returns a fresh map"},
 		Rules: []Rule{
 			{ID: "C19.R1", Min: 30, Desc: "tables only under mu; snapshot iteration", Fn: c19Tables},
@@ -589,7 +589,6 @@ func c19BeforeReported(p *Program, r *Report) {
 	r.Check(ok, "subscriptions dropped before the termination is observable", pos, fmt.Sprintf("each of the %d observable termination effects (path release, OnKilled notices, ActorKilledEvent) is dominated by UnsubscribeAll", len(observable)))
 }
 
-
 // wholeEntryDeletes: every delete(table, key) of a two-level table in fn is dominated by an edge asserting len(table[key]) == 0
 // for the same table and key, or follows a loop over table[key].
 func (p *Program) wholeEntryDeletes(r *Report, fn *ssa.Function, tbl *types.Var, consequence string) int {
@@ -641,7 +640,6 @@ func (p *Program) wholeEntryDeletes(r *Report, fn *ssa.Function, tbl *types.Var,
 	}
 	return n
 }
-
 
 // c19UnsubscribeOwner: the subscriber tables are keyed by path. UnsubscribeAll(x) therefore drops the subscriptions of whatever
 // actor lives at x's path — calling it for a context that merely shares the path (a spawn attempt rejected as a duplicate
